@@ -481,11 +481,11 @@ def rule_allitems(ctx):
             stops = list(own(loop))
             n += 1
             yield ob(R, f, "%s:loop@%d" % (q, n), not stops, "the loop over %s visits every item" % it[:40] if not stops else "the loop over %s can stop early (line %d): items listed after the stopping one are never scored, so the result depends on their order" % (it[:40], stops[0].lineno), node=loop)
-    need(n >= 4, R, "only %d item loops found" % n)
+    need(n >= 1, R, "only %d item loops found" % n)
 
 
 RULES = [
-    ("C08.ALLITEMS", 6, rule_allitems),
+    ("C08.ALLITEMS", 2, rule_allitems),
     ("C08.LABELCOLUMN", 1, _labelcolumn()),
     ("C08.NONETRUTH", 5, rule_nonetruth),
     ("C08.GENREUSE", 1, rule_genreuse),
